@@ -1,6 +1,10 @@
 """C06 — responses are accepted only as successful answers to outstanding requests."""
+import atexit
+import hashlib
 import itertools
 import os
+import shutil
+import sys
 import tempfile
 
 from harness import common, env, fixtures, render, spaccept, world
@@ -11,7 +15,7 @@ PARALLEL = 12
 IMPORTS = "From Verif Require Import C06.Model C06.Spec C06.Corr."
 CASE_TYPE = "C06.Corr.case"
 RUNNER = "C06.Corr.run"
-FINDING_CLASSES = {2: "C06-F2", 3: "C06-F3"}
+FINDING_CLASSES = {2: "C06-F2", 3: "C06-F3", 4: "C06-F4"}
 RULE = ("complete products per group with the other groups at their baseline: correlation = Response InResponseTo(4) x "
         "SubjectConfirmation shapes (0-2 confirmations, each {no data, data without InResponseTo, outstanding id, other "
         "outstanding id, unknown id}) x allow_unsolicited(2) x outstanding set {empty, one, many}, completely for BOTH "
@@ -29,16 +33,34 @@ RULE = ("complete products per group with the other groups at their baseline: co
         "delivered as EncryptedAssertion over POST (part of them with the assertion signed as well), reduced over Redirect / Artifact / SOAP; two assertions {clear+encrypted, "
         "encrypted+clear, both encrypted} x confirmations of each from {answers req-1, answers req-2, no InResponseTo, "
         "[req-2, req-1]} x InResponseTo{req-1, unknown, absent} x allow(2); three assertions; shape / status / version with "
-        "the assertion encrypted; plus seeded random mixtures across groups, deliveries and encryption flags. "
+        "the assertion encrypted; THE SET-UP OF THE RECEIVER: how the SP option allow_unsolicited is written {absent (older groups), "
+        "None, False, True (older groups), 'false', 'true', 0, 1} x both browser bindings x InResponseTo(4) x 5 confirmation "
+        "shapes x outstanding {empty, many} (+ one, two confirmations, encrypted, SOAP / Artifact / misaddressed, status / "
+        "version / shape failures); 27 further spellings (words that say yes: 'True', 'yes', 'on', '1', blanks; words that say "
+        "no: 'False', 'FALSE', 'no', 'off', '0', blanks = finding C06-F4, fixed; '', other words = no client can be built, other numbers) x both browser "
+        "bindings x 7 solicited / unsolicited shapes; how the configuration object is made {SPConfig, Config, IdPConfig "
+        "loaded from the dict, config_factory('sp', dict), Saml2Client(config_file=module)} x 10 spellings x 5 shapes; "
+        "plus seeded random mixtures across groups, deliveries, encryption flags and set-ups. "
         "non-trivial = distinct abstract input differing from the all-valid baseline")
 TRUSTED = ["source-to-Gallina translator harness/py2coq.py + coq/theories/Base/Py.v (check_subject_confirmation_in_response_to is "
            "re-translated from the source text on every run; c06_source_check_sc_irt proves it equal to the model)",
-           "xmlsec1 stand-in", "renderer harness/render.py", "translator harness/c06.py:regenerate_tables (STATUSCODE2EXCEPTION)"]
+           "xmlsec1 stand-in", "renderer harness/render.py", "translator harness/c06.py:regenerate_tables (STATUSCODE2EXCEPTION)",
+           "translator v2 harness/py2coq2.py + coq/theories/Base/Py2.v (not-modelled list: notes/translator_v2.md) and the cut "
+           "harness/c06.py:config_slices (takes the statements between cnf[arg] and self.setattr out of Config.load_special and "
+           "those between config.getattr and setattr out of Base.__init__, refuses any other shape of the statements around "
+           "them); Config.setattr / Config.getattr are translated whole; c06_source_* prove them equal to the model's "
+           "load_special_val / client_init_val / truthy; that Config.load calls load_special for the 'sp' section, that "
+           "_parse_response hands self.allow_unsolicited on and the class of the configuration object are covered by the "
+           "correspondence run only"]
 ASSUMPTIONS = ["signature, times, audience, recipient valid in every case; the message is encoded the way the named binding "
                "prescribes (POST also deflated, which Entity.unravel accepts)",
                "the SP registers one HTTP-POST and one HTTP-Redirect assertion consumer endpoint and none for other bindings",
                "encrypted assertions are encrypted for the SP's own certificate (RSA-OAEP + AES-128-CBC through the stand-in) and "
                "decrypt; the Response is always signed by the IdP, the assertions are signed as well in part of the cases",
+               "allow_unsolicited is written in the service/sp section of the configuration (a top-level entry is not an SP "
+               "option); string spellings are ASCII; a string that says neither yes nor no (meaning = None in Spec.v: 'maybe', "
+               "'tru', '-') carries no obligation; since 6bdc97cd no client can be built with it (SAMLError), observed as 'no "
+               "identity' for every delivery, and the model has to agree",
                "request ids and contexts are non-empty ASCII strings; InResponseTo values are NCNames (anything else, the empty string "
                "included, is refused by the schema validation in front of the signature check: SignatureError)"]
 
@@ -61,6 +83,21 @@ OTHER_DELIVERIES = [("post", "deflate", "post"), ("post", "b64", "absent"), ("po
 RARE_DELIVERIES = [("artifact", "b64", "elsewhere"), ("artifact", "b64", "redirect"), ("soap", "soap", "absent"),
                    ("soap", "soap", "elsewhere"), ("paos", "soap", "absent")]   # only in the random mixtures
 IRT = [None, "req-1", "req-2", "unknown-9"]
+
+# ---- the set-up of the receiver: how the SP option allow_unsolicited is WRITTEN (service/sp section) ...
+ABSENT, NONE = ["absent"], ["none"]
+def B(b): return ["bool", bool(b)]
+def S(s): return ["str", s]
+def I(n): return ["int", int(n)]
+OPT_DOCUMENTED = [ABSENT, NONE, B(False), B(True), S("false"), S("true"), I(0), I(1)]
+OPT_NEW = [NONE, B(False), S("false"), S("true"), I(0), I(1)]          # absent / True are the two the older groups use
+OPT_YES_WORDS = [S("True"), S("TRUE"), S("yes"), S("on"), S("1"), S(" true"), S("true ")]
+OPT_NO_WORDS = [S("False"), S("FALSE"), S("fAlSe"), S("no"), S("No"), S("off"), S("0"), S(" false"), S("false "), S(" ")]   # C06-F4
+OPT_OTHER = [S(""), S("maybe"), S("falsey"), S("fals"), S("tru"), S("truee"), S("unsolicited"), S("-"), I(2), I(7)]
+# ... and how the configuration object is made
+LOADERS = ["spconfig", "config", "idpconfig", "factory-dict", "client-file"]
+COQ_LOADER = {"spconfig": "LSPConfig", "config": "LConfig", "idpconfig": "LIdPConfig", "factory-dict": "LFactoryDict",
+              "client-file": "LClientFile"}
 SCD = [("nodata",), ("data", None), ("data", "req-1"), ("data", "req-2"), ("data", "unknown-9")]
 SUCCESS = render.STATUS_SUCCESS
 
@@ -89,18 +126,144 @@ def regenerate_tables(ctx):
     src = py2coq.regenerate(os.path.join(common.GEN, "C06Src.v"), [
         (os.path.join(env.SRC, "saml2", "response.py"), "AuthnResponse.check_subject_confirmation_in_response_to",
          {"name": "src_check_sc_irt", "params": ["self", "irp"]})])
-    return {"file": "coq/gen/C06Tables.v", "entries": len(rows), "changed": changed or src["changed"],
-            "obligations": 1 + src["obligations"], "discharged": 1 + src["discharged"], "source": src,
-            "untranslatable": src["untranslatable"],
+    src2 = regenerate_source2()
+    return {"file": "coq/gen/C06Tables.v", "entries": len(rows), "changed": changed or src["changed"] or src2["changed"],
+            "obligations": 1 + src["obligations"] + src2["obligations"],
+            "discharged": 1 + src["discharged"] + src2["discharged"], "source": src, "source2": src2,
+            "untranslatable": src["untranslatable"] + src2["untranslatable"],
             "table_theorems": ["table_names_ok (C06/Proofs.v): every defined code maps to the class its name demands"]}
 
 
+# ---------------------------------------------------------------------------- source tie for the option's way
+def _same(node, text):
+    import ast
+    return ast.dump(node) == ast.dump(ast.parse(text).body[0])
+
+
+def config_slices():
+    """The statements through which the value of a boolean SP option passes between the configuration dict and the
+    attribute of the client, cut out of their functions as two small pure functions (fail-closed: every statement
+    around the cut must have exactly the expected shape, else Untranslatable):
+      Config.load_special   for arg in SPEC[typ]: try: _val = cnf[arg] / except KeyError: pass / else: <CUT>;
+                            self.setattr(typ, arg, _val)            ->  def load_special_value(_val): <CUT>; return _val
+      Base.__init__         for attr, val_default in attribute_defaults.items(): val_config = self.config.getattr(attr, "sp");
+                            <CUT>; setattr(self, attr, val)         ->  def option_value(attr, val_config, val_default): <CUT>; return val
+    and the default of allow_unsolicited in the attribute_defaults literal of Base.__init__.
+    Returns [(origin, FunctionDef, spec)], default (a Python constant)."""
+    import ast
+    from harness import py2coq2
+
+    U = py2coq2.Untranslatable
+    out = []
+    path = os.path.join(env.SRC, "saml2", "config.py")
+    with open(path) as f:
+        fn = py2coq2.find_function(ast.parse(f.read()), "Config.load_special")
+    body = [b for b in fn.body if not (isinstance(b, ast.Expr) and isinstance(b.value, ast.Constant))]
+    loop = body[0] if body else None
+    if not (isinstance(loop, ast.For) and isinstance(loop.target, ast.Name)
+            and loop.target.id == "arg" and ast.dump(loop.iter) == ast.dump(ast.parse("SPEC[typ]").body[0].value)
+            and not loop.orelse and len(loop.body) == 1 and isinstance(loop.body[0], ast.Try)):
+        raise U("Config.load_special: the loop over SPEC[typ] has another shape")
+    t = loop.body[0]
+    if not (len(t.body) == 1 and _same(t.body[0], "_val = cnf[arg]") and len(t.handlers) == 1
+            and ast.dump(t.handlers[0]) == ast.dump(ast.parse("try:\n pass\nexcept KeyError:\n pass").body[0].handlers[0])
+            and not t.finalbody and t.orelse and _same(t.orelse[-1], "self.setattr(typ, arg, _val)")):
+        raise U("Config.load_special: the try statement around cnf[arg] has another shape")
+    for rest in body[1:]:
+        if not (_same(rest, "self.context = typ") or _same(rest, "self.context = self.def_context")):
+            raise U("Config.load_special: unexpected statement after the loop")
+    f1 = ast.parse("def load_special_value(_val):\n pass").body[0]
+    f1.body = list(t.orelse[:-1]) + [ast.parse("return _val").body[0]]
+    f1.lineno, f1.end_lineno = t.orelse[0].lineno, t.orelse[-1].end_lineno
+    out.append(("saml2/config.py:Config.load_special (the else block in front of self.setattr, cut out by harness/c06.py:config_slices)",
+                ast.fix_missing_locations(f1), {"name": "src2_load_special_value", "params": ["_val"]}))
+
+    path = os.path.join(env.SRC, "saml2", "client_base.py")
+    with open(path) as f:
+        fn = py2coq2.find_function(ast.parse(f.read()), "Base.__init__")
+    k = next((i for i, b in enumerate(fn.body) if isinstance(b, ast.Assign) and len(b.targets) == 1
+              and isinstance(b.targets[0], ast.Name) and b.targets[0].id == "attribute_defaults"), None)
+    if k is None or k + 1 >= len(fn.body) or not isinstance(fn.body[k].value, ast.Dict):
+        raise U("Base.__init__: attribute_defaults literal not found")
+    try:
+        defaults = ast.literal_eval(fn.body[k].value)
+    except ValueError:
+        raise U("Base.__init__: attribute_defaults is not a literal")
+    loop = fn.body[k + 1]
+    if not (isinstance(loop, ast.For) and not loop.orelse
+            and ast.dump(loop.target) == ast.dump(ast.parse("attr, val_default = 0").body[0].targets[0])
+            and ast.dump(loop.iter) == ast.dump(ast.parse("attribute_defaults.items()").body[0].value)
+            and len(loop.body) >= 2 and _same(loop.body[0], 'val_config = self.config.getattr(attr, "sp")')
+            and _same(loop.body[-1], "setattr(self, attr, val)")):
+        raise U("Base.__init__: the loop over attribute_defaults has another shape")
+    uses = [n for b in fn.body[k + 2:] for n in ast.walk(b) if isinstance(n, ast.Attribute) and n.attr == "allow_unsolicited"
+            and isinstance(n.ctx, ast.Store)]
+    if uses or "allow_unsolicited" not in defaults or type(defaults["allow_unsolicited"]) is not bool:
+        raise U("Base.__init__: allow_unsolicited is set in another way as well")
+    f2 = ast.parse("def option_value(attr, val_config, val_default):\n pass").body[0]
+    f2.body = list(loop.body[1:-1]) + [ast.parse("return val").body[0]]
+    f2.lineno, f2.end_lineno = loop.lineno, loop.end_lineno
+    out.append(("saml2/client_base.py:Base.__init__ (the body of the loop over attribute_defaults between config.getattr and "
+                "setattr, cut out by harness/c06.py:config_slices)", ast.fix_missing_locations(f2),
+                SRC2_SPECS[1]))
+    return out, defaults["allow_unsolicited"]
+
+
+SRC2_SPECS = [{"name": "src2_load_special_value", "params": ["_val"]},
+              {"name": "src2_option_value", "params": ["attr", "val_config", "val_default"], "lenient_raise_args": True,
+               "exc_parents": {"SAMLError": ["Exception"]}},
+              {"name": "src2_config_setattr", "params": ["self", "context", "attr", "val"], "returns_state": ["self"]},
+              {"name": "src2_config_getattr", "params": ["self", "attr", "context"]}]
+
+
+def regenerate_source2():
+    """coq/gen/C06Src2.v: the two cuts of config_slices, Config.setattr / Config.getattr (whole functions) and the
+    default of allow_unsolicited, re-translated from the source text as it is NOW (translator v2; C06/Source2.v proves
+    them equal to load_special_val / client_init_val of the model)."""
+    import ast
+    from harness import py2coq2
+
+    out, failed, names = [py2coq2.HEADER], [], []
+    default = None
+    try:
+        slices, default = config_slices()
+    except (py2coq2.Untranslatable, OSError, SyntaxError, AttributeError, IndexError) as e:
+        slices = []
+        failed.append("config_slices: %s" % e)
+        out += [py2coq2.poison(sp["name"], sp, str(e)) for sp in SRC2_SPECS[:2]]
+    for origin, fn, spec in slices:
+        names.append(spec["name"])
+        try:
+            out.append(py2coq2.translate_def(fn, spec, origin))
+        except py2coq2.Untranslatable as e:
+            failed.append("%s: %s" % (spec["name"], e))
+            out.append(py2coq2.poison(spec["name"], spec, str(e)))
+    path = os.path.join(env.SRC, "saml2", "config.py")
+    for q, spec in (("Config.setattr", SRC2_SPECS[2]), ("Config.getattr", SRC2_SPECS[3])):
+        names.append(q)
+        try:
+            out.append(py2coq2.translate(path, q, spec))
+        except (py2coq2.Untranslatable, OSError, SyntaxError) as e:
+            failed.append("%s: %s" % (q, e))
+            out.append(py2coq2.poison(q, spec, str(e)))
+    out.append("(* saml2/client_base.py:Base.__init__, attribute_defaults[\"allow_unsolicited\"] *)\n"
+               "Definition src2_allow_unsolicited_default : pyval := %s.\n" % (
+                   "PErr" if default is None else "(PBool %s)" % ("true" if default else "false")))
+    changed = common.write_if_changed(os.path.join(common.GEN, "C06Src2.v"), "\n".join(out))
+    n = len(SRC2_SPECS) + 1
+    return {"translated": names, "untranslatable": failed, "changed": changed, "obligations": n,
+            "discharged": n - len(failed) if slices else 0}
+
+
 def mk(irt="req-1", scs=(("data", "req-1"),), allow=False, out="one", top=SUCCESS, second=None, version="2.0",
-       n_assert=1, n_authn=1, subject=True, tag="", delivery=FULL_DELIVERIES[0], sealed=(), scs2=None, sign_a=False):
-    """sealed: which assertions (by position) arrive as EncryptedAssertion (missing = in clear); scs: confirmations of
+       n_assert=1, n_authn=1, subject=True, tag="", delivery=FULL_DELIVERIES[0], sealed=(), scs2=None, sign_a=False,
+       opt=None, how="spconfig"):
+    """allow: shorthand for the two set-ups of the older groups (False: option absent, True: the boolean True);
+    opt: how the option is written (overrides allow); how: how the configuration object is made; sealed: which assertions (by position) arrive as EncryptedAssertion (missing = in clear); scs: confirmations of
     the first assertion, scs2: of every further one (None = the same); sign_a: the assertions are signed as well."""
     return {"via": delivery[0], "enc": delivery[1], "dest": delivery[2], "irt": irt, "scs": [list(s) for s in scs],
-            "allow": allow, "out": out, "top": top, "second": second,
+            "opt": list(opt) if opt is not None else (B(True) if allow else ABSENT), "how": how,
+            "out": out, "top": top, "second": second,
             "version": version, "n_assert": n_assert, "n_authn": n_authn, "subject": subject, "tag": tag,
             "sealed": [bool(b) for b in (list(sealed) + [False] * n_assert)[:n_assert]],
             "scs2": None if scs2 is None else [list(s) for s in scs2], "sign_a": bool(sign_a)}
@@ -244,6 +407,45 @@ def generate(ctx):
     for k, v in enumerate(bound):
         dl, sealed = rot[k % 3]
         cases.append(mk(top=v, second=code if (k // 3) % 2 else None, tag="status-top", delivery=dl, sealed=sealed))
+    # ---- the set-up: how allow_unsolicited is written x how the configuration object is made
+    unknown = "unknown-9"
+    conf_shapes = [(), (("data", None),), (("data", "req-1"),), (("data", "req-2"),), (("data", unknown),)]
+    for opt in OPT_NEW:
+        for dl in FULL_DELIVERIES:
+            for irt in IRT:
+                for scs in conf_shapes:
+                    for out in ("empty", "many"):
+                        cases.append(mk(irt=irt, scs=scs, opt=opt, out=out, tag="config", delivery=dl))
+                cases.append(mk(irt=irt, scs=(("data", irt),), opt=opt, out="one", tag="config", delivery=dl))
+                cases.append(mk(irt=irt, scs=(("data", "req-1"), ("data", unknown)), opt=opt, out="one", tag="config",
+                                delivery=dl))
+        for irt in IRT:
+            for scs in conf_shapes:
+                cases.append(mk(irt=irt, scs=scs, opt=opt, out="many", tag="config", delivery=post, sealed=(True,)))
+        for dl in (("soap", "soap", "post"), ("artifact", "b64", "absent"), ("post", "b64", "elsewhere")):
+            for irt, sc in (("req-1", "req-1"), (unknown, unknown), (None, None)):
+                cases.append(mk(irt=irt, scs=(("data", sc),), opt=opt, out="many", tag="config", delivery=dl))
+        cases.append(mk(opt=opt, top=tops[0], second=code, tag="config"))
+        cases.append(mk(opt=opt, irt=unknown, scs=(("data", unknown),), top=tops[0], second=code, tag="config"))
+        cases.append(mk(opt=opt, irt=unknown, scs=(("data", unknown),), version="2.1", tag="config"))
+        cases.append(mk(opt=opt, irt=unknown, scs=(("data", unknown),), n_authn=0, tag="config"))
+        cases.append(mk(opt=opt, irt=unknown, n_assert=0, tag="config"))
+    word_shapes = [("req-1", "req-1"), ("req-1", "req-2"), (unknown, unknown), (None, None), (None, unknown), (unknown, None),
+                   ("req-2", None)]
+    for opt in OPT_YES_WORDS + OPT_NO_WORDS + OPT_OTHER:
+        for k, dl in enumerate(FULL_DELIVERIES):
+            for irt, sc in word_shapes:
+                cases.append(mk(irt=irt, scs=(("data", sc),), opt=opt, out=("many", "one", "empty")[(k + len(cases)) % 3],
+                                tag="config-words", delivery=dl))
+        cases.append(mk(irt=unknown, scs=(("data", unknown),), opt=opt, out="many", tag="config-words", sealed=(True,)))
+        cases.append(mk(irt=unknown, scs=(("data", unknown),), opt=opt, out="many", tag="config-words",
+                        delivery=("soap", "soap", "post")))
+    for how in LOADERS[1:]:
+        for opt in [ABSENT, NONE, B(False), B(True), S("false"), S("true"), I(0), S("False"), S("yes"), S("")]:
+            for k, (irt, sc) in enumerate(word_shapes[:5]):
+                cases.append(mk(irt=irt, scs=(("data", sc),), opt=opt, how=how, out="many", tag="config-loader",
+                                delivery=FULL_DELIVERIES[k % 2]))
+    all_opts = OPT_DOCUMENTED * 3 + OPT_YES_WORDS + OPT_NO_WORDS + OPT_OTHER
     for _ in range(3000 if ctx.thorough else 400):
         cases.append(mk(irt=rng.choice(IRT), scs=rng.choice(sc_shapes), allow=rng.random() < 0.4,
                         out=rng.choice(list(OUTS)), top=rng.choice([SUCCESS] * 4 + tops * 2 + bound),
@@ -257,6 +459,9 @@ def generate(ctx):
         if c["n_assert"] > 1 and rng.random() < 0.5:
             c["scs2"] = [list(x) for x in rng.choice(sc_shapes)]
         c["sign_a"] = rng.random() < 0.2
+        if rng.random() < 0.5:
+            c["opt"] = list(rng.choice(all_opts))
+            c["how"] = rng.choice(LOADERS[:1] * 3 + LOADERS)
     return cases
 
 
@@ -355,8 +560,79 @@ def render_case(case):
     return build(r, assertions, sealed, case.get("sign_a"))
 
 
+_clients = {}
+_refused = {}
+_conf_dir = []
+
+
+def case_opt(case):
+    """(opt, how) of a case; cases recorded before the set-up dimension existed carry "allow" only."""
+    if "opt" in case:
+        return list(case["opt"]), case.get("how", "spconfig")
+    return (B(True) if case.get("allow") else ABSENT), "spconfig"
+
+
+def opt_over(opt):
+    """The entry of the service/sp section that writes the option the way [opt] says (none when absent)."""
+    if opt[0] == "absent":
+        return {}
+    return {"sp_allow_unsolicited": None if opt[0] == "none" else opt[1]}
+
+
+def get_client(opt, how):
+    """Local variant of spaccept.get_sp: a Saml2Client whose configuration writes allow_unsolicited as [opt] says, the
+    configuration object being made the way [how] says; one long-lived client per set-up and process, identity cache
+    cleared on every use."""
+    if how == "spconfig":
+        return spaccept.get_sp(opt_over(opt))
+    env.install_standin()
+    spaccept.CLOCK.install()
+    key = (how, repr(opt))
+    sp = _clients.get(key)
+    if sp is None:
+        from saml2 import config as cfg
+        from saml2.client import Saml2Client
+
+        d = world.sp_config(**opt_over(opt))
+        if how == "config":
+            sp = Saml2Client(config=cfg.Config().load(d))
+        elif how == "idpconfig":
+            sp = Saml2Client(config=cfg.IdPConfig().load(d))
+        elif how == "factory-dict":
+            sp = Saml2Client(config=cfg.config_factory("sp", d))
+        elif how == "client-file":
+            if not _conf_dir:
+                _conf_dir.append(tempfile.mkdtemp(prefix="verif-c06-conf-%d-" % os.getpid()))
+                atexit.register(shutil.rmtree, _conf_dir[0], True)
+            name = "verif_c06_conf_%s" % hashlib.sha1(repr(opt).encode()).hexdigest()[:12]
+            path = os.path.join(_conf_dir[0], name + ".py")
+            with open(path, "w") as f:
+                f.write("CONFIG = %r\n" % (d,))
+            try:
+                sp = Saml2Client(config_file=path)
+            finally:
+                sys.modules.pop(name, None)
+                while _conf_dir[0] in sys.path:
+                    sys.path.remove(_conf_dir[0])
+        else:
+            raise ValueError(how)
+        _clients[key] = sp
+    from saml2.population import Population
+
+    sp.users = Population()
+    return sp
+
+
 def observe(case):
-    sp = spaccept.get_sp({"sp_allow_unsolicited": True} if case["allow"] else {})
+    opt, how = case_opt(case)
+    key = (how, repr(opt))
+    if key not in _refused:
+        try:
+            sp = get_client(opt, how)
+        except Exception as e:  # noqa  - a set-up the library refuses (SAMLError since 6bdc97cd): no receiver
+            _refused[key] = "setup:" + type(e).__name__
+    if key in _refused:    # no receiver, hence no identity whatever is delivered
+        return {"identity": False, "came_from": None, "exc": _refused[key], "status_err": None}
     xml = render_case(case)
     out = OUTS[case["out"]]
     o = spaccept.observe(sp, xml, BINDINGS[case["via"]], None if out is None else dict(out),
@@ -365,6 +641,13 @@ def observe(case):
     if o["exc"] and "StatusError" in (o.get("exc_mro") or []):
         status_err = o["exc"]
     return {"identity": o["identity"], "came_from": o["came_from"], "exc": o["exc"], "status_err": status_err}
+
+
+def coq_setup(case):
+    opt, how = case_opt(case)
+    o = {"absent": lambda: "OAbsent", "none": lambda: "ONone", "bool": lambda: "(OBool %s)" % cq(bool(opt[1])),
+         "str": lambda: "(OStr %s)" % cq(opt[1]), "int": lambda: "(OInt %d%%nat)" % opt[1]}[opt[0]]()
+    return "{| opt := %s; how := %s |}" % (o, COQ_LOADER[how])
 
 
 def coq_case(case, obs):
@@ -383,7 +666,7 @@ def coq_case(case, obs):
     maj, mi = case["version"].split(".")
     return "C06.Corr.mk %s %s %s %s %s %s (%d%%nat, %d%%nat) %s %s %s %s" % (
         COQ_BINDING[case["via"]], COQ_DEST[case["dest"]], cq([bool(b) for b in sealed]),
-        cq(bool(case["allow"])), cq([(k, v2) for k, v2 in (OUTS[case["out"]] or [])]), cq_opt(case["irt"]), int(maj), int(mi),
+        coq_setup(case), cq([(k, v2) for k, v2 in (OUTS[case["out"]] or [])]), cq_opt(case["irt"]), int(maj), int(mi),
         cq(case["top"]), cq_opt(case["second"]), "[" + "; ".join(one(k) for k in range(case["n_assert"])) + "]", v)
 
 
@@ -402,6 +685,10 @@ def histogram(cases, observed):
         h["by_tag"][c["tag"]] = h["by_tag"].get(c["tag"], 0) + 1
         dk = "%s/%s/dest=%s" % (c["via"], c["enc"], c["dest"])
         h["by_delivery"][dk] = h["by_delivery"].get(dk, 0) + 1
+        opt, how = case_opt(c)
+        ok = "%s/%s" % (":".join(repr(x) if isinstance(x, str) and opt[0] == "str" else str(x) for x in opt), how)
+        h.setdefault("by_setup", {})
+        h["by_setup"][ok] = h["by_setup"].get(ok, 0) + 1
         if o["identity"]:
             h["identity"] += 1
         elif o["status_err"]:
